@@ -423,6 +423,101 @@ Section Facts.
   Qed.
 End Facts.
 
+(* ---------------------------------------------------------------- ancestors: the path from the root *)
+Lemma first_some_none {A B} (f : A -> option B) l : (forall x, In x l -> f x = None) -> first_some (map f l) = None.
+Proof.
+  induction l as [|a r IH]; intros H; [reflexivity|]. cbn. rewrite (H a (or_introl eq_refl)). apply IH.
+  intros x Hx. apply H. right. exact Hx.
+Qed.
+Lemma first_some_pick {A B} (f : A -> option B) l1 k l2 v :
+  (forall x, In x l1 -> f x = None) -> f k = Some v -> first_some (map f (l1 ++ k :: l2)) = Some v.
+Proof.
+  induction l1 as [|a r IH]; intros H Hk; cbn.
+  - rewrite Hk. reflexivity.
+  - rewrite (H a (or_introl eq_refl)). apply IH; [|exact Hk]. intros x Hx. apply H. right. exact Hx.
+Qed.
+Lemma first_some_in {A B} (f : A -> option B) l v : first_some (map f l) = Some v -> exists k, In k l /\ f k = Some v.
+Proof.
+  induction l as [|a r IH]; intros H; [discriminate|]. cbn in H. destruct (f a) eqn:E.
+  - injection H as ->. exists a. split; [left; reflexivity|exact E].
+  - destruct (IH H) as [k [Hk Hv]]. exists k. split; [right; exact Hk|exact Hv].
+Qed.
+Lemma a_path_unfold n i p kids :
+  a_path n (INode i p kids) =
+  if N.eqb i n then Some [] else match first_some (map (a_path n) kids) with Some q => Some (i :: q) | None => None end.
+Proof. reflexivity. Qed.
+Lemma a_path_none n t : ~ In n (ids t) -> a_path n t = None.
+Proof.
+  induction t as [i p kids IH] using itree_ind'. intros Hn. rewrite a_path_unfold. rewrite ids_unfold in Hn.
+  destruct (N.eqb i n) eqn:E; [apply N.eqb_eq in E; subst; exfalso; apply Hn; left; reflexivity|].
+  rewrite first_some_none; [reflexivity|]. intros k Hk. rewrite Forall_forall in IH. apply (IH k Hk).
+  intros Hin. apply Hn. right. apply in_flat_map. exists k. auto.
+Qed.
+Lemma a_path_root t : a_path (iid t) t = Some [].
+Proof. destruct t as [i p kids]. rewrite a_path_unfold. cbn [iid]. rewrite N.eqb_refl. reflexivity. Qed.
+Lemma a_path_length n t : forall q, a_path n t = Some q -> length q < length (ids t).
+Proof.
+  induction t as [i p kids IH] using itree_ind'. intros q H. rewrite a_path_unfold in H. rewrite ids_unfold. cbn [length].
+  destruct (N.eqb i n); [injection H as <-; cbn; lia|].
+  destruct (first_some (map (a_path n) kids)) as [q'|] eqn:E; [|discriminate]. injection H as <-.
+  destruct (first_some_in _ _ _ E) as [k [Hk Hq]]. rewrite Forall_forall in IH. specialize (IH k Hk q' Hq). cbn [length].
+  assert (length (ids k) <= length (flat_map ids kids)).
+  { clear - Hk. induction kids as [|a r IHr]; [destruct Hk|]. cbn. rewrite app_length. destruct Hk as [->|Hk]; [lia|specialize (IHr Hk); lia]. }
+  lia.
+Qed.
+(* descending into the kid that holds the node *)
+Lemma a_path_into i p l1 k l2 m : NoDup (ids (INode i p (l1 ++ k :: l2))) -> In m (ids k) ->
+  a_path m (INode i p (l1 ++ k :: l2)) = match a_path m k with Some q => Some (i :: q) | None => None end.
+Proof.
+  intros Hnd Hm. rewrite a_path_unfold. rewrite ids_unfold in Hnd. inversion Hnd as [|? ? Hni Hnd']; subst.
+  assert (Hin : In m (flat_map ids (l1 ++ k :: l2))) by (apply in_flat_map; exists k; split; [apply in_or_app; right; left; reflexivity|exact Hm]).
+  destruct (N.eqb i m) eqn:E; [apply N.eqb_eq in E; subst; contradiction|].
+  destruct (a_path m k) as [q|] eqn:Eq.
+  - rewrite (first_some_pick (a_path m) l1 k l2 q); [reflexivity| |exact Eq].
+    intros x Hx. apply a_path_none. intros Hmx. rewrite flat_map_app in Hnd'.
+    eapply nodup_app_disj; [exact Hnd'|apply in_flat_map; exists x; split; [exact Hx|exact Hmx]|].
+    cbn [flat_map]. apply in_or_app. left. exact Hm.
+  - exfalso. clear - Eq Hm. revert Eq. generalize m Hm. clear. induction k as [j pk kk IHk] using itree_ind'. intros m Hm Eq.
+    rewrite a_path_unfold in Eq. rewrite ids_unfold in Hm. destruct (N.eqb j m) eqn:E; [discriminate|].
+    destruct Hm as [->|Hm]; [rewrite N.eqb_refl in E; discriminate|].
+    apply in_flat_map in Hm. destruct Hm as [x [Hx Hm]]. rewrite Forall_forall in IHk.
+    destruct (first_some (map (a_path m) kk)) eqn:F; [discriminate|].
+    destruct (in_split _ _ Hx) as [a [b ->]].
+    assert (Hex : exists q, a_path m x = Some q).
+    { destruct (a_path m x) eqn:G; [eexists; reflexivity|]. exfalso. exact (IHk x Hx m Hm G). }
+    destruct Hex as [q Hq]. clear - F Hq.
+    induction a as [|y a IHa]; cbn in F; [rewrite Hq in F; discriminate|]. destruct (a_path m y); [discriminate|]. exact (IHa F).
+Qed.
+Lemma a_path_kid t : NoDup (ids t) -> forall s n, In s (subtrees t) -> In n (kid_ids s) ->
+  exists ps, a_path (iid s) t = Some ps /\ a_path n t = Some (ps ++ [iid s]).
+Proof.
+  induction t as [i p kids IH] using itree_ind'. intros Hnd s n Hs Hn. rewrite subtrees_unfold in Hs. destruct Hs as [<-|Hs].
+  - exists []. split; [apply (a_path_root (INode i p kids))|]. unfold kid_ids in Hn. cbn [ikids] in Hn.
+    apply in_map_iff in Hn. destruct Hn as [k [<- Hk]]. destruct (in_split _ _ Hk) as [l1 [l2 ->]].
+    rewrite (a_path_into i p l1 k l2 (iid k) Hnd); [rewrite a_path_root; reflexivity|].
+    destruct k. rewrite ids_unfold. left. reflexivity.
+  - apply in_flat_map in Hs. destruct Hs as [k [Hk Hs]]. destruct (in_split _ _ Hk) as [l1 [l2 E]]. subst kids.
+    assert (Hndk : NoDup (ids k)).
+    { rewrite ids_unfold in Hnd. inversion Hnd as [|? ? _ H]; subst. exact (flat_map_nodup_part ids _ k H Hk). }
+    rewrite Forall_forall in IH. destruct (IH k Hk Hndk s n Hs Hn) as [ps [H1 H2]].
+    exists (i :: ps). split.
+    + rewrite (a_path_into i p l1 k l2 (iid s) Hnd (sub_id_in k s Hs)), H1. reflexivity.
+    + rewrite (a_path_into i p l1 k l2 n Hnd (kid_id_in k s n Hs Hn)), H2. reflexivity.
+Qed.
+
+Theorem ancestors_chain t : NoDup (ids t) -> forall n, In n (ids t) ->
+  a_ancestors t n = match a_parent t n with Some p => p :: a_ancestors t p | None => [] end.
+Proof.
+  intros Hnd n Hn. destruct (N.eq_dec n (iid t)) as [->|Hne].
+  - rewrite (a_parent_root t Hnd). unfold a_ancestors. rewrite a_path_root. reflexivity.
+  - destruct (has_parent t n Hn Hne) as [s [Hs Hk]]. rewrite (a_parent_of_kid t Hnd s n Hs Hk).
+    destruct (a_path_kid t Hnd s n Hs Hk) as [ps [H1 H2]]. unfold a_ancestors. rewrite H1, H2, rev_app_distr. reflexivity.
+Qed.
+Lemma ancestors_length t n : length (a_ancestors t n) < length (ids t) \/ a_ancestors t n = [].
+Proof.
+  unfold a_ancestors. destruct (a_path n t) as [q|] eqn:E; [left; rewrite rev_length; exact (a_path_length n t q E)|right; reflexivity].
+Qed.
+
 (* the relations of one tree agree with each other *)
 Theorem tree_consistency t : NoDup (ids t) -> forall n, In n (ids t) ->
   (* a node is among its parent's children exactly once, at its index *)
@@ -471,5 +566,8 @@ Proof.
   replace (Z.of_nat (length l) + (Z.of_nat i - Z.of_nat (length l)))%Z with (Z.of_nat i) by lia.
   destruct (Z.ltb_spec (Z.of_nat i) 0); [lia|]. rewrite Nat2Z.id. reflexivity.
 Qed.
+Lemma py_index_both (l : list nid) i : (i < length l)%nat ->
+  py_index l (Z.of_nat i - Z.of_nat (length l)) = nth_error l i /\ py_index l (Z.of_nat i) = nth_error l i.
+Proof. intros H. split; [exact (py_index_neg l i H)|exact (py_index_nonneg l i H)]. Qed.
 Lemma py_slice_all {A} (l : list A) : py_slice l None None = l.
 Proof. unfold py_slice, py_bound. rewrite Nat.sub_0_r. cbn [skipn]. apply firstn_all. Qed.
